@@ -137,7 +137,7 @@ def _vertex_sets(f):
 
 
 def r_maskpoint(idx, rep, rule="R-MASKPOINT"):
-    rep.rule(rule, "a returned (point, feature mask) pair names exactly the vertices the point is built from", floor=9)
+    rep.rule(rule, "a returned (point, feature mask) pair names exactly the vertices the point is built from", floor=6)
     for fname in ("closest_point_line", "closest_point_triangle"):
         f = idx.func(J + "::" + fname)
         params = f.params()
